@@ -1,7 +1,7 @@
 """C12, multi-queue half - SP, RR, WRR and DRR are work-conserving, non-preemptive, rate-exact and per-flow FIFO.
 `run_family(ctx)` has the return shape of a check's `run(ctx)`; harness/c12.py combines it with the WFQ/VirtualClock half."""
 import random
-from harness.mq import gen_case, evaluate, cases_from_replay
+from harness.mq import gen_group, evaluate, cases_from_replay
 from harness.mqoracle import oracle_c12
 
 ASSUMPTIONS = [
@@ -16,7 +16,7 @@ KINDS = ['sp', 'rr', 'wrr', 'drr']
 
 
 def gen(rng, n):
-    return [gen_case(rng, f'mq{i}', KINDS[i % 4], backlog=rng.random() < 0.4) for i in range(n)]
+    return [gen_group(rng, f'mq{i}', KINDS[i % 4], backlog=rng.random() < 0.4, share=0.2) for i in range(n)]
 
 
 def run_family(ctx):
